@@ -310,4 +310,54 @@ def acceptOk (row : String × String × List (Rat × Bool)) : Bool :=
   | none => false
   | some f => row.2.2.all (fun vb => (cons f (attrOfName row.2.1)).ok vb.1 == vb.2)
 
+/-! ### which pricer configuration the calibration uses (utils.py:251-300), measured on the running code
+
+`calibration_fun` prices with `COSPricer(calibrated_model).price(product)`, where `calibrated_model` is rebuilt with the input
+model's `spot, r, d`; the ATM target is `CFBlackScholes(bs_model(spot, r, d, bs_sigma)).call(strike = spot, maturity)`.
+"Reprices its target" is a statement about the pricer a USER applies to the returned model — `COSPricer(model)` with the
+default `n`, `l` — so it follows from the root finder's contract only if the objective's configuration IS that one. -/
+
+/-- everything a COS pricing call depends on besides the parameter object -/
+structure PriceCfg where
+  cosTerms : Rat      -- `n` of the COSPricer
+  cosCutoff : Rat     -- `l`
+  spot : Rat
+  rate : Rat
+  dividend : Rat
+  strike : Rat
+  maturity : Rat
+  payoff : Rat        -- 1 call, -1 put, 0 forward
+  deriving DecidableEq, Repr
+
+/-- configuration of the Black–Scholes closed-form target -/
+structure TargetCfg where
+  spot : Rat
+  rate : Rat
+  dividend : Rat
+  strike : Rat
+  maturity : Rat
+  sigma : Rat
+  deriving DecidableEq, Repr
+
+def PriceCfg.ofList : List Rat → Option PriceCfg
+  | [n, l, s, r, d, k, t, p] => some ⟨n, l, s, r, d, k, t, p⟩
+  | _ => none
+
+def TargetCfg.ofList : List Rat → Option TargetCfg
+  | [s, r, d, k, t, v] => some ⟨s, r, d, k, t, v⟩
+  | _ => none
+
+/-- `calibrate_model_parameter_to_atm_call` with the configurations made explicit: the objective prices with `cfgObj`,
+    the market price is the closed form evaluated at `tgt` -/
+def calibrateCfg (irr : Irr) (rf : RootFinder) (f : Fam) (priceWith : PriceCfg → Dict → Rat) (bsPrice : TargetCfg → Rat)
+    (cfgObj : PriceCfg) (tgt : TargetCfg) (d : Dict) (a : Attr) (lo hi : Rat) : Option Rat :=
+  calibrate irr rf f (priceWith cfgObj) d a lo hi (bsPrice tgt)
+
+/-- one measured row `(family, configurations seen inside the objective, the user's default configuration, the target
+    configuration the code built, the requested target)` is acceptable: the objective used exactly one configuration, the
+    user's, and the target is the requested one -/
+def cfgRowOk (row : String × List (List Rat) × List Rat × List (List Rat) × List Rat) : Bool :=
+  (famOfName row.1).isSome && !row.2.1.isEmpty && row.2.1.all (fun c => c == row.2.2.1) && (PriceCfg.ofList row.2.2.1).isSome
+    && !row.2.2.2.1.isEmpty && row.2.2.2.1.all (fun c => c == row.2.2.2.2) && (TargetCfg.ofList row.2.2.2.2).isSome
+
 end Rpylib.Params
